@@ -114,6 +114,34 @@ func c10World(r *world.Rng, steps int) C10World {
 	w.Kind = "bytes"
 	w.MemSeed = r.U64()
 	w.Regs = world.RandRegs(r)
+	if r.Chance(1, 3) {
+		// a straight run of rarely used encodings at PC: the undocumented DD/FD CB d op register forms, the
+		// IXH/IXL family, ED duplicates, every IN r,(C) / OUT (C),r (whether the library implements one or
+		// warns and skips it, it must do so identically on every copy of the CPU)
+		var code []uint8
+		for k := r.Range(6, 16); k > 0; k-- {
+			pre := []uint8{0xdd, 0xfd}[r.Intn(2)]
+			switch r.Intn(6) {
+			case 0, 1:
+				op := uint8(r.Intn(256))
+				for op&7 == 6 || op&0xc0 == 0x40 { // not the documented (IX+d) forms, not BIT
+					op = uint8(r.Intn(256))
+				}
+				code = append(code, pre, 0xcb, r.Byte(), op)
+			case 2:
+				code = append(code, pre, []uint8{0x24, 0x25, 0x2c, 0x2d, 0x44, 0x45, 0x4c, 0x4d, 0x54, 0x5d, 0x60, 0x61, 0x62, 0x63, 0x65, 0x67, 0x68, 0x69, 0x6c, 0x6f, 0x7c, 0x7d, 0x84, 0x85, 0x8c, 0x94, 0x9d, 0xa4, 0xad, 0xb4, 0xbd}[r.Intn(31)])
+			case 3:
+				code = append(code, pre, []uint8{0x26, 0x2e}[r.Intn(2)], r.Byte())
+			case 4:
+				code = append(code, 0xed, []uint8{0x40, 0x48, 0x50, 0x58, 0x60, 0x68, 0x70, 0x78, 0x41, 0x49, 0x51, 0x59, 0x61, 0x69, 0x71, 0x79}[r.Intn(16)])
+			default:
+				nn := uint16(r.Range(0x9000, 0x9100))
+				x := [][]uint8{{0xed, 0x63, uint8(nn), uint8(nn >> 8)}, {0xed, 0x6b, uint8(nn), uint8(nn >> 8)}, {0xed, 0x4c}, {0xed, 0x54}, {0xed, 0x7c}, {0xed, 0x4e}, {0xed, 0x6e}, {0xed, 0x77}, {0xed, 0x7f}}
+				code = append(code, x[r.Intn(len(x))]...)
+			}
+		}
+		w.Patch = append(w.Patch, world.MkSeg(w.Regs.PC, code))
+	}
 	for i := r.Intn(4); i > 0; i-- {
 		ev := world.Event{Kind: world.EvINT, Data: fmt.Sprintf("%02x", []uint8{0xc7, 0xff, 0xcf, 0x10, 0x82}[r.Intn(5)])}
 		switch r.Intn(6) {
@@ -740,7 +768,14 @@ func c10Free(sc *C10Sc, env *Env) *Violation {
 				for k := 0; k < w.Steps; k++ {
 					m.Boundary()
 					m.Bus.ResetLog()
-					_ = m.CPU.Run(context.Background())
+					if i%2 == 1 {
+						// the usual host pattern: a context per call, released right after the call
+						ctx, cancel := context.WithCancel(context.Background())
+						_ = m.CPU.Run(ctx)
+						cancel()
+					} else {
+						_ = m.CPU.Run(context.Background())
+					}
 					m.Steps++
 				}
 				m.CPU.BreakPoints = nil
